@@ -8,12 +8,14 @@
 package main
 
 import (
+	"bufio"
 	"encoding/json"
 	"fmt"
 	"math/rand"
 	"net"
 	"os"
 	"path/filepath"
+	"runtime"
 	"sort"
 	"strings"
 	"sync"
@@ -21,9 +23,12 @@ import (
 	"syscall"
 	"time"
 
+	"github.com/innovationb1ue/RedisGO/memdb"
+
 	"rgverif/internal/common"
 	"rgverif/internal/evidence"
 	"rgverif/internal/findings"
+	"rgverif/internal/inproc"
 	"rgverif/internal/procs"
 	"rgverif/internal/respc"
 )
@@ -40,6 +45,9 @@ type witness struct {
 var (
 	wmu   sync.Mutex
 	bySig = map[string]witness{}
+	// dumped is set once a goroutine dump was taken from the server as evidence (taking it ends the process, which
+	// is then not a crash of the server)
+	dumped atomic.Bool
 )
 
 func report(w witness) {
@@ -120,6 +128,9 @@ func run(o *common.Opts, srv *procs.Server, sc scenario, st *stats) {
 		sl.slow = r.Intn(5) == 0
 		if sc.stuck && i == 0 {
 			sl.stopRead = true
+			// on every channel: deliveries from different channels then meet on its socket (each channel has a lock of
+			// its own, the socket's write deadline is shared)
+			sl.chans = append([]string{}, chans...)
 		}
 		if sc.doubleSub && i == 1 {
 			sl.doubleSub = true
@@ -245,7 +256,7 @@ func run(o *common.Opts, srv *procs.Server, sc scenario, st *stats) {
 		go func(p int) {
 			defer pwg.Done()
 			pr := rand.New(rand.NewSource(sc.seed*31 + int64(p)))
-			c, err := respc.Dial(srv.Addr, 120*time.Second)
+			c, err := respc.Dial(srv.Addr, 45*time.Second) // a subscriber that stopped reading costs a publisher 3 s, once
 			if err != nil {
 				pmu.Lock()
 				recs = append(recs, pubRec{pub: p, err: "dial: " + err.Error()})
@@ -285,6 +296,7 @@ func run(o *common.Opts, srv *procs.Server, sc scenario, st *stats) {
 	select {
 	case <-pubDone:
 	case <-time.After(150 * time.Second):
+		dumped.Store(true)
 		dump := srv.Dump()
 		parked := strings.Contains(dump, "pubsub_struct.go") && (strings.Contains(dump, "net.(*conn).Write") || strings.Contains(dump, "sync.(*RWMutex)"))
 		report(witness{Kind: "publisher-blocked", Detail: fmt.Sprintf("publishers did not finish %d PUBLISHes within 150s (a subscriber that stopped reading: %v); goroutine dump shows a publisher parked in the channel: %v", sc.nPub*sc.perPub, sc.stuck, parked), Sig: "publisher-blocked"})
@@ -315,6 +327,20 @@ func run(o *common.Opts, srv *procs.Server, sc scenario, st *stats) {
 	wg.Wait()
 	st.scenarios++
 	// ---- offline checker ----
+	// a PUBLISH that got no reply within the client's 45 s timeout although the server process is alive: the
+	// server's goroutines say whether the publisher is stuck inside the delivery (taking the dump ends the server)
+	for _, rc := range recs {
+		if rc.err != "" && strings.Contains(rc.err, "i/o timeout") && !srv.Exited() {
+			dumped.Store(true)
+			dump := srv.Dump()
+			if strings.Contains(dump, "memdb.(*ChanMap).Send") || strings.Contains(dump, "memdb.publish") {
+				report(witness{Kind: "publisher-blocked", Detail: fmt.Sprintf("publisher %d got no reply to a PUBLISH within 45 s; the server's goroutines show the delivery still in progress:\n%s", rc.pub, inproc.TopFrames(dump, 14)), Sig: "publisher-blocked|delivery never returns"})
+			} else {
+				report(witness{Kind: "publish-error", Detail: fmt.Sprintf("publisher %d: %s; goroutines:\n%s", rc.pub, rc.err, inproc.TopFrames(dump, 14)), Sig: "publish-error"})
+			}
+			return
+		}
+	}
 	byPayload := map[string]pubRec{}
 	for _, rc := range recs {
 		if rc.err != "" {
@@ -510,6 +536,184 @@ func relay(srv *procs.Server, seed int64, hops int, st *stats) {
 	st.scenarios++
 }
 
+// stalledOnSeveralChannels: one subscriber follows three channels and never reads; one publisher per channel sends
+// until the subscriber's socket is full. Each channel has a lock of its own, but the socket (and its write deadline)
+// is shared by the deliveries of all three. As soon as any PUBLISH has been outstanding for half a second everybody
+// else stops publishing, so nobody can come to the rescue of a delivery that is waiting without a deadline: every
+// PUBLISH must still be answered (the stalled subscriber is dropped after the delivery timeout).
+func stalledOnSeveralChannels(srv *procs.Server, seed int64, rounds int, st *stats) {
+	pad := strings.Repeat("y", 16*1024)
+	var rwg sync.WaitGroup
+	var once sync.Once
+	for round := 0; round < rounds; round++ {
+		rwg.Add(1)
+		go func(round int) {
+			defer rwg.Done()
+			sub, err := respc.Dial(srv.Addr, 30*time.Second)
+			if err != nil {
+				return
+			}
+			defer sub.Close() // also keeps the connection referenced until the round is over
+			const nch = 3
+			for i := 0; i < nch; i++ {
+				_ = sub.Send(respc.Cmd("SUBSCRIBE", fmt.Sprintf("stall:%d:%d:%d", seed%100000, round, i)))
+				_, _ = sub.RecvTimeout(5 * time.Second)
+			}
+			var mu sync.Mutex
+			outstanding := map[int]time.Time{}
+			dropped := 0
+			slow := func() bool {
+				mu.Lock()
+				defer mu.Unlock()
+				for _, t := range outstanding {
+					if time.Since(t) > 500*time.Millisecond {
+						return true
+					}
+				}
+				return false
+			}
+			var pwg sync.WaitGroup
+			for p := 0; p < nch; p++ {
+				pwg.Add(1)
+				go func(p int) {
+					defer pwg.Done()
+					c, err := respc.Dial(srv.Addr, 40*time.Second)
+					if err != nil {
+						return
+					}
+					defer c.Close()
+					for i := 0; i < 1500; i++ {
+						for slow() {
+							time.Sleep(20 * time.Millisecond)
+						}
+						mu.Lock()
+						if dropped >= 1 {
+							mu.Unlock()
+							return
+						}
+						outstanding[p] = time.Now()
+						mu.Unlock()
+						v, err := c.Do("PUBLISH", fmt.Sprintf("stall:%d:%d:%d", seed%100000, round, p), pad)
+						mu.Lock()
+						delete(outstanding, p)
+						if err == nil && v.Kind == ':' && v.Int == 0 {
+							dropped++
+						}
+						st.published++
+						mu.Unlock()
+						if err != nil {
+							if strings.Contains(err.Error(), "i/o timeout") && !srv.Exited() {
+								once.Do(func() {
+									dumped.Store(true)
+									dump := srv.Dump()
+									where := "no delivery frame in the dump"
+									if strings.Contains(dump, "memdb.(*ChanMap).Send") {
+										where = "the delivery is still waiting on the subscriber's socket"
+									}
+									report(witness{Kind: "publisher-blocked", Detail: fmt.Sprintf("a subscriber on %d channels stopped reading; publisher %d got no reply to PUBLISH within 40 s while all other publishers were idle (%s):\n%s", nch, p, where, inproc.TopFrames(dump, 14)), Sig: "publisher-blocked|delivery without a deadline"})
+								})
+							}
+							return
+						}
+					}
+				}(p)
+			}
+			pwg.Wait()
+		}(round)
+	}
+	rwg.Wait()
+	st.patterns["stalled-subscriber-on-3-channels"] += rounds
+	st.scenarios++
+}
+
+// seamScenario (in-process, deterministic): one subscriber follows two channels over a connection that takes exactly
+// one message and then stops reading. Two PUBLISHes, one per channel, go out at once; the verif yield point between
+// "set the write deadline" and "write" holds the second delivery until the first has finished (or a second has
+// passed). Whatever the first delivery does to the connection's deadline when it is done must not leave the second
+// one waiting on the dead socket without a deadline: both PUBLISHes have to return (the delivery timeout is 3 s).
+func seamScenario(o *common.Opts, st *stats) {
+	inproc.Setup(8, 1, filepath.Join(o.Work, "seam-log"))
+	defer func() { memdb.VerifYieldHook = nil }()
+	for round := 0; round < 2; round++ {
+		in := inproc.New()
+		srvEnd, cliEnd := net.Pipe()
+		// the client side reads one whole push and then nothing more
+		firstRead := make(chan struct{})
+		go func() {
+			br := bufio.NewReader(cliEnd)
+			if _, err := respc.Decode(br); err == nil {
+				close(firstRead)
+			}
+		}()
+		in.Exec(respc.Cmd("SUBSCRIBE", "seam:x", "seam:y"), srvEnd)
+		var mu sync.Mutex
+		arrivals := 0
+		firstDone := make(chan struct{})
+		memdb.VerifYieldHook = func(site string) {
+			if site != "pubsub.send" {
+				return
+			}
+			mu.Lock()
+			arrivals++
+			n := arrivals
+			mu.Unlock()
+			if n == 1 {
+				// the first delivery to arrive waits here, deadline already set, until the other one is done
+				select {
+				case <-firstDone:
+				case <-time.After(time.Second):
+				}
+			}
+		}
+		type res struct {
+			who string
+			v   respc.Value
+			d   time.Duration
+		}
+		out := make(chan res, 2)
+		publish := func(ch string) {
+			t0 := time.Now()
+			r := in.Exec(respc.Cmd("PUBLISH", ch, "payload-"+ch), nil)
+			out <- res{ch, r.V, time.Since(t0)}
+		}
+		go publish("seam:x")
+		time.Sleep(50 * time.Millisecond) // x is parked at the seam
+		go func() { publish("seam:y"); close(firstDone) }()
+		got := 0
+		timeout := time.After(12 * time.Second)
+		var lines []string
+	wait:
+		for got < 2 {
+			select {
+			case r := <-out:
+				got++
+				lines = append(lines, fmt.Sprintf("PUBLISH %s -> %s after %.1fs", r.who, r.v.String(), r.d.Seconds()))
+			case <-timeout:
+				break wait
+			}
+		}
+		st.published += 2
+		st.patterns["seam: second delivery held between deadline and write"]++
+		if got < 2 {
+			buf := make([]byte, 1<<20)
+			buf = buf[:runtime.Stack(buf, true)]
+			stack := ""
+			for _, g := range strings.Split(string(buf), "\n\n") {
+				if strings.Contains(g, "memdb.(*ChanMap).Send") {
+					stack = inproc.TopFrames(g, 8)
+				}
+			}
+			report(witness{Kind: "publisher-blocked", Detail: fmt.Sprintf("in-process, one subscriber on two channels that reads one message and then stops; two PUBLISHes at once, the first one to set its deadline held before its write until the other had finished: after 12 s only %d of 2 returned (%v); the goroutine still inside the delivery:\n%s", got, lines, stack),
+				Sig: "publisher-blocked|delivery without a deadline"})
+			return // the instance is wedged
+		}
+		in.Stop()
+		cliEnd.Close()
+		srvEnd.Close()
+	}
+	st.scenarios++
+}
+
 // reusedAddress: a subscriber leaves and, before anything is published, another client arrives from the very same
 // source address (ip:port) and subscribes to the same channel. It is a different connection: the next PUBLISH must
 // reach it and count it.
@@ -642,9 +846,12 @@ func main() {
 		sc := scenario{seed: o.Seed*100003 + int64(i), nChan: 1 + r.Intn(4), nSub: 2 + r.Intn(14), nPub: 1 + r.Intn(7), perPub: 40 + r.Intn(120), churn: i%3 == 1}
 		if i%9 == 4 {
 			sc.stuck = true
-			sc.nPub = 2
+			sc.nPub = 2 + r.Intn(3)
 			sc.perPub = 200
 			sc.churn = false
+			if sc.nChan < 2 {
+				sc.nChan = 2
+			}
 		}
 		if i%9 == 7 {
 			sc.doubleSub = true
@@ -652,14 +859,25 @@ func main() {
 		if i%6 == 5 {
 			relay(srv, sc.seed, o.Pick(120, 400), st)
 			reusedAddress(srv, sc.seed, o.Pick(8, 40), st)
+			if srv.Exited() {
+				break
+			}
+			stalledOnSeveralChannels(srv, sc.seed, o.Pick(6, 12), st)
+			if srv.Exited() { // the goroutine dump taken as evidence ends the server
+				break
+			}
 		} else {
 			run(o, srv, sc, st)
+		}
+		if srv.Exited() && dumped.Load() {
+			break
 		}
 		if srv.Exited() {
 			report(witness{Kind: "crash", Detail: "server exited: " + srv.CrashLine() + "\n" + tailStr(srv.Output(), 3000), Sig: "crash|" + strings.SplitN(srv.CrashLine(), " [", 2)[0]})
 			break
 		}
 	}
+	seamScenario(o, st)
 	races, sample := 0, ""
 	if race {
 		races, sample = srv.RaceReports()
